@@ -55,6 +55,10 @@ type Engine struct {
 	mutGlobals  map[string]bool
 	pureCache   map[*ssa.Function]bool
 	typeInvs    []*typeInvInfo
+	sumCache    map[*ssa.Function]*modSummary
+	unproved    map[string]bool // obligations explicitly left unproved at enrolment (nil checks)
+	sumFrame    *frame
+	AllRepoPkgs []*packages.Package
 	byName      map[string]*types.Package
 	Errors      []string
 }
@@ -79,7 +83,7 @@ func NewEngine(opts Options, patterns []string) (*Engine, error) {
 	e := &Engine{opts: opts, repoPkgs: map[*types.Package]bool{}, funcC: map[*ssa.Function]*FuncC{}, funcCPkg: map[*FuncC]*types.Package{},
 		externs: map[string]*FuncC{}, externPkg: map[*FuncC]*types.Package{}, specs: map[string]*specInfo{}, nopanic: map[*ssa.Function][]string{},
 		tags: map[string]int{}, funcIDs: map[string]int{}, implQueries: map[string]implQ{}, inlineOK: map[*ssa.Function]bool{},
-		closureFn: map[string]*ssa.Function{}, typeCache: map[string]types.Type{}, mutGlobals: map[string]bool{}, pureCache: map[*ssa.Function]bool{}, byName: map[string]*types.Package{}}
+		closureFn: map[string]*ssa.Function{}, typeCache: map[string]types.Type{}, mutGlobals: map[string]bool{}, pureCache: map[*ssa.Function]bool{}, sumCache: map[*ssa.Function]*modSummary{}, unproved: map[string]bool{}, byName: map[string]*types.Package{}}
 	cfg := &packages.Config{Mode: packages.LoadAllSyntax | packages.NeedModule, Dir: opts.RepoDir, BuildFlags: []string{"-tags=verif"},
 		Env: append(os.Environ(), "GOFLAGS=-mod=mod", "GOPROXY=off", "GOSUMDB=off", "GOTOOLCHAIN=local")}
 	pkgs, err := packages.Load(cfg, patterns...)
@@ -211,7 +215,15 @@ func (e *Engine) loadContracts() error {
 			e.externPkg[fc] = nil
 		}
 	}
-	for _, p := range e.Pkgs {
+	var repoPkgs []*packages.Package
+	packages.Visit(e.Pkgs, nil, func(p *packages.Package) {
+		if p.Types != nil && e.repoPkgs[p.Types] {
+			repoPkgs = append(repoPkgs, p)
+		}
+	})
+	sort.Slice(repoPkgs, func(i, j int) bool { return repoPkgs[i].PkgPath < repoPkgs[j].PkgPath })
+	e.AllRepoPkgs = repoPkgs
+	for _, p := range repoPkgs {
 		if len(p.GoFiles) == 0 {
 			continue
 		}
@@ -273,11 +285,23 @@ func (e *Engine) loadContracts() error {
 				tags = strings.Split(np[1:i], ",")
 				ref = strings.TrimSpace(np[i+1:])
 			}
+			var unproved []string
+			if i := strings.Index(ref, " -- unproved:"); i >= 0 {
+				for _, u := range strings.Split(ref[i+len(" -- unproved:"):], ";") {
+					if u = strings.TrimSpace(u); u != "" {
+						unproved = append(unproved, u)
+					}
+				}
+				ref = strings.TrimSpace(ref[:i])
+			}
 			fn := e.findFunc(sp, ref)
 			if fn == nil {
 				return fmt.Errorf("%s: nopanic function %q not found in %s", path, ref, p.Types.Path())
 			}
-			e.nopanic[fn] = tags
+			e.nopanic[fn] = append(e.nopanic[fn], tags...)
+			for _, u := range unproved {
+				e.unproved[funcDisplayName(fn)+"/"+u] = true
+			}
 		}
 	}
 	return nil
